@@ -180,6 +180,16 @@ theorem payloadOk_cellText {c : DrawCfg} (hrw : RwOk c.rw) (hrb : RwB c.rw) (hp 
     rw [if_neg hne]
     refine ⟨⟨obsMain c.rw cm, comb, rfl, hm.1, hm.2.1, hm.2.2.1, hm.2.2.2, by omega, hc⟩, fun _ => by simp only; omega⟩
 
+theorem payloadOk_cellTextG {c : DrawCfg} (hrw : RwOk c.rw) (hrb : RwB c.rw) (hp : Utf8Payload c) (w x : Int) (cm : Rune)
+    (comb : List Rune) (hc : ∀ k ∈ comb, CombOk c.rw k) (nl : Bool) :
+    let tx := Scr.cellTextG c w x (obsMain c.rw cm) comb (obsWidth c.rw cm) nl
+    PayloadOk c.rw tx.1 tx.2 ∧ (x < w → x + tx.2 ≤ w) := by
+  simp only [Scr.cellTextG]
+  split
+  · refine ⟨⟨32, [], by decide, by decide, by decide, by decide, hrb.ascii 32 (by decide) (by decide), Or.inl rfl, by simp⟩,
+      fun h => by simp only; omega⟩
+  · exact payloadOk_cellText hrw hrb hp w x cm comb hc
+
 theorem drawCell_eq_plain (c : DrawCfg) (hct : c.Plain) (s : Scr) (x y : Int) :
     s.drawCell c x y = s.drawCellPlain c x y := by
   unfold Scr.drawCell
@@ -219,16 +229,19 @@ theorem visit_step {c : DrawCfg} (hrw : RwOk c.rw) (hrb : RwB c.rw) (hp : Utf8Pa
   cases hd : s.cells.dirty x y
   · rw [Scr.drawCellPlain_clean c s x y hd]
     refine ⟨trivial, inv.kcur, inv.kpen, ?_⟩
-    rw [getContent_wok hrw s.cells x y hr (inv.buf.wok x y)]
-    exact (obsWidth_pos hrw _).1
-  · rw [Scr.drawCellPlain_dirty c hct.ng s x y hd]
     have hgc := getContent_wok hrw s.cells x y hr (inv.buf.wok x y)
-    rw [hgc]
-    simp only
+    have := (obsWidth_pos hrw (s.cells.cells x y).currMain).1
+    rcases retWidth_cases c s x y with h | h
+    · simp only; rw [h, hgc]; exact this
+    · simp only; omega
+  · rw [Scr.drawCellPlain_dirty c s x y hd]
+    have hgc := getContent_wok hrw s.cells x y hr (inv.buf.wok x y)
+    simp only [Scr.txAt, hgc]
     generalize hst : resolveStyle s.style (s.cells.cells x y).currStyle = st'
-    have PT := payloadOk_cellText hrw hrb hp s.w x (s.cells.cells x y).currMain (s.cells.cells x y).currComb (inv.ext.buf x y).1
-    generalize Scr.cellText c s.w x (obsMain c.rw (s.cells.cells x y).currMain) (s.cells.cells x y).currComb
-      (obsWidth c.rw (s.cells.cells x y).currMain) = tx at PT
+    have PT := payloadOk_cellTextG hrw hrb hp s.w x (s.cells.cells x y).currMain (s.cells.cells x y).currComb (inv.ext.buf x y).1
+      (c.guardLocked && s.cells.locked (x + 1) y)
+    generalize Scr.cellTextG c s.w x (obsMain c.rw (s.cells.cells x y).currMain) (s.cells.cells x y).currComb
+      (obsWidth c.rw (s.cells.cells x y).currMain) (c.guardLocked && s.cells.locked (x + 1) y) = tx at PT
     obtain ⟨hpay, hfit⟩ := PT
     have hw1 : 1 ≤ tx.2 := by obtain ⟨_, _, _, _, _, _, _, h12, _⟩ := hpay; omega
     have hxy : 0 ≤ x ∧ 0 ≤ y ∧ x < s.w ∧ y < s.h := by
